@@ -414,6 +414,12 @@ func (c *Ctx) checkLockDiscipline(pr Protected, exceptions []lockException, need
 					c.Bad(inst, s.Pos(), fmt.Sprintf("%s is called without %s held, but it accesses protected state (%s)", nd.f.Name, pr.Mutex, nd.why))
 				}
 			}
+			// a reference to the function that is not a call (a method value handed to a router, a
+			// goroutine launcher, a callback table) is an entry point: whoever invokes it holds nothing
+			if refs := p.valueRefs(nd.f.Obj); len(refs) > 0 {
+				c.Bad(fmt.Sprintf("%s requires %s held: used as a value", nd.f.Name, pr.Mutex), refs[0], fmt.Sprintf("%s accesses protected state without taking %s, and it escapes as a function value at %s: it can be invoked with the lock not held (%s)", nd.f.Name, pr.Mutex, strings.Join(refs, ", "), nd.why))
+				continue
+			}
 			if callers == 0 {
 				if nd.f.Obj != nil && nd.f.Obj.Exported() {
 					// an exported function or method without a static caller is an entry point (an
@@ -616,4 +622,41 @@ func (c *Ctx) checkNoReopen(pr Protected, commits ...Callee) {
 	if n == 0 {
 		c.Unk(pr.Type+"."+pr.Mutex+" continuity", "no function locks this mutex")
 	}
+}
+
+// valueRefs lists the positions in the module where fn is referenced other than
+// as the callee of a call expression (method values, function values).
+func (p *Program) valueRefs(fn *types.Func) []string {
+	if fn == nil {
+		return nil
+	}
+	var out []string
+	for _, pk := range p.All {
+		for _, file := range pk.Syntax {
+			callee := map[*ast.Ident]bool{}
+			ast.Inspect(file, func(n ast.Node) bool {
+				if call, ok := n.(*ast.CallExpr); ok {
+					switch x := ast.Unparen(call.Fun).(type) {
+					case *ast.Ident:
+						callee[x] = true
+					case *ast.SelectorExpr:
+						callee[x.Sel] = true
+					}
+				}
+				return true
+			})
+			ast.Inspect(file, func(n ast.Node) bool {
+				id, ok := n.(*ast.Ident)
+				if !ok || callee[id] {
+					return true
+				}
+				if u, ok := pk.TypesInfo.Uses[id].(*types.Func); ok && u.Origin() == fn {
+					out = append(out, p.Pos(id.Pos()))
+				}
+				return true
+			})
+		}
+	}
+	sort.Strings(out)
+	return out
 }
